@@ -65,6 +65,8 @@ def replay(path):
         res = Result(PROP, "replay", 0)
         if "panic" not in r:
             predicate(res, q, r)
+            if not res.violations:
+                model_correspondence(res, PROP, [q], [r])      # the optimum for this lattice, from the model
         print(q["input"], q["n"], "->", [(c["text"], c["priority"]) for c in r.get("candidates", [])], "violations:", len(res.violations))
-        bad += bool(res.violations) or "panic" in r
+        bad += bool(res.violations) or bool(res.broken) or "panic" in r
     return 1 if bad else 0
